@@ -39,6 +39,8 @@ type C19Op struct {
 	// inq
 	Method string
 	NoArgs bool // the query carries no `a` dictionary at all
+	// RL: rate-limiting options of an API query: default | not-any | not-first
+	RL string
 	// setlist: index into Lists, -1 = nil
 	List int
 }
@@ -46,6 +48,7 @@ type C19Op struct {
 type C19Sc struct {
 	Dual    bool
 	Passive bool
+	Hook    string // "" | allow (an OnQuery hook that lets every query through)
 	Nodes   int
 	Lists   []C19List
 	Initial int // list installed at construction (-1 none)
@@ -68,6 +71,9 @@ func c19Addr(i int, dual bool) *net.UDPAddr {
 
 func genC19(t *rapid.T) C19Sc {
 	sc := C19Sc{Dual: rapid.Bool().Draw(t, "dual"), Passive: uniformInt(t, 3, "passive") == 0, Nodes: 4 + uniformInt(t, 12, "nodes")}
+	if uniformInt(t, 3, "hook") == 0 {
+		sc.Hook = "allow"
+	}
 	nl := 1 + uniformInt(t, 3, "nlists")
 	for i := 0; i < nl; i++ {
 		var l C19List
@@ -106,6 +112,8 @@ func genC19(t *rapid.T) C19Sc {
 			op.NoArgs = uniformInt(t, 4, "op.noargs") == 0
 		case "setlist", "held":
 			op.List = uniformInt(t, nl+1, "op.list") - 1
+		case "query", "findnode", "getpeers", "get":
+			op.RL = pick(t, "op.rl", "default", "default", "not-any", "not-first")
 		}
 		sc.Ops = append(sc.Ops, op)
 	}
@@ -199,7 +207,7 @@ func runC19(sc C19Sc, c *kit.Case) *kit.Violation {
 		ids[i] = [20]byte{0x19, byte(i), byte(i * 7)}
 	}
 	var cur *rangeList
-	opts := SrvOpts{NodeID: [20]byte{0xc1, 0x19}, Passive: sc.Passive, PeerStore: true, Starting: []*net.UDPAddr{addrs[0], addrs[1]}}
+	opts := SrvOpts{NodeID: [20]byte{0xc1, 0x19}, Passive: sc.Passive, Hook: sc.Hook, PeerStore: true, Starting: []*net.UDPAddr{addrs[0], addrs[1]}}
 	if sc.Initial >= 0 {
 		r, rl := sc.Lists[sc.Initial].build()
 		opts.Blocklist = r
@@ -294,6 +302,7 @@ func runC19(sc C19Sc, c *kit.Case) *kit.Violation {
 			simnet.Go(func() { defer close(done); f() })
 		}
 		sync := true
+		rl := dht.QueryRateLimiting{NotAny: op.RL == "not-any", NotFirst: op.RL == "not-first"}
 		switch op.Kind {
 		case "inq":
 			tseq++
@@ -324,19 +333,21 @@ func runC19(sc C19Sc, c *kit.Case) *kit.Violation {
 			async(func() { sv.S.Ping(node) })
 		case "query":
 			sync = false
-			async(func() { sv.S.Query(context.Background(), dht.NewAddr(node), "ping", dht.QueryInput{NumTries: 2}) })
+			async(func() {
+				sv.S.Query(context.Background(), dht.NewAddr(node), "ping", dht.QueryInput{NumTries: 2, RateLimiting: rl})
+			})
 		case "findnode":
 			sync = false
-			async(func() { sv.S.FindNode(dht.NewAddr(node), int160.FromByteArray(ids[0]), dht.QueryRateLimiting{}) })
+			async(func() { sv.S.FindNode(dht.NewAddr(node), int160.FromByteArray(ids[0]), rl) })
 		case "getpeers":
 			sync = false
 			async(func() {
-				sv.S.GetPeers(context.Background(), dht.NewAddr(node), int160.FromByteArray(ids[0]), false, dht.QueryRateLimiting{})
+				sv.S.GetPeers(context.Background(), dht.NewAddr(node), int160.FromByteArray(ids[0]), false, rl)
 			})
 		case "get":
 			sync = false
 			async(func() {
-				sv.S.Get(context.Background(), dht.NewAddr(node), bep44.Target(ids[0]), nil, dht.QueryRateLimiting{})
+				sv.S.Get(context.Background(), dht.NewAddr(node), bep44.Target(ids[0]), nil, rl)
 			})
 		case "put":
 			sync = false
